@@ -19,7 +19,7 @@ TYPES = {  # name: (block bytes, digest bytes, family)
 def blake_summary(wbits):
     def f(ex, name, args):
         st, blk, t0, t1 = args
-        hb = 8 * wbits // 8
+        hb = wbits // 8
         o, off = ex.access(st, hb, 16, True)
         h = ex.read_bytes(o, off, hb)
         d, doff = ex.access(blk, 2 * hb, 1, False)
@@ -64,8 +64,8 @@ def jh_f8(ex, name, args):
 SUMMARIES = [
     (re.compile(r'blake_hash13Compressor2569put_block9put_block17h[0-9a-f]{16}E$'), blake_summary(256)),
     (re.compile(r'blake_hash13Compressor5129put_block9put_block17h[0-9a-f]{16}E$'), blake_summary(512)),
-    (re.compile(r'groestl_aesni13Compressor5125input17h[0-9a-f]{16}E$'), groestl_input(64)),
-    (re.compile(r'groestl_aesni14Compressor10245input17h[0-9a-f]{16}E$'), groestl_input(128)),
+    (re.compile(r'groestl_aesni10compressor\d+(aes|ssse3|sse2)\d+tf51217h[0-9a-f]{16}E$'), groestl_input(64)),
+    (re.compile(r'groestl_aesni10compressor\d+(aes|ssse3|sse2)\d+tf102417h[0-9a-f]{16}E$'), groestl_input(128)),
     (re.compile(r'groestl_aesni10compressor\d+(aes|ssse3|sse2)\d+of51217h[0-9a-f]{16}E$'), groestl_of(64)),
     (re.compile(r'groestl_aesni10compressor\d+(aes|ssse3|sse2)\d+of102417h[0-9a-f]{16}E$'), groestl_of(128)),
     (re.compile(r'jh_x86_6410compressor2f817h[0-9a-f]{16}E$'), jh_f8),
